@@ -2,13 +2,15 @@ module github.com/echovault/sugardb/verifharness
 
 go 1.22.0
 
-require github.com/echovault/sugardb v0.0.0
+require (
+	github.com/echovault/sugardb v0.0.0
+	github.com/gobwas/glob v0.2.3
+)
 
 require (
 	github.com/armon/go-metrics v0.4.1 // indirect
 	github.com/boltdb/bolt v1.3.1 // indirect
 	github.com/fatih/color v1.13.0 // indirect
-	github.com/gobwas/glob v0.2.3 // indirect
 	github.com/google/btree v0.0.0-20180813153112-4030bb1f1f0c // indirect
 	github.com/hashicorp/errwrap v1.0.0 // indirect
 	github.com/hashicorp/go-hclog v1.5.0 // indirect
